@@ -160,3 +160,34 @@ theorem c05_gen_accept (s : St) (m : Nat) :
   cases s.closing <;> simp
 
 end C05
+
+namespace C05
+namespace Chan
+
+/-- **the whole step of the reader on a popped channel message, written with the translated tests**: room is
+`out.Len() < out.Cap()` (`Gen.C05.dispatchChannel_room`, strict), and with room the message is sent iff
+`Gen.C05.dispatchChannel_sends` (`!closing`); no room: "channel too small", the message is dropped. -/
+theorem c05_gen_channel_step (s : St) (m : Nat) (hp : s.pc = .sending m) :
+    step s .reader = some (
+      if Gen.C05.dispatchChannel_room (s.chan.length, s.cap) (fun p => (p.1 : Int)) (fun p => (p.2 : Int)) then
+        if Gen.C05.dispatchChannel_sends s.closing
+        then { s with pc := .top, chan := s.chan ++ [m], log := s.log ++ [(m, .put)] }
+        else { s with pc := .top, log := s.log ++ [(m, .late)] }
+      else { s with pc := .top, log := s.log ++ [(m, .full)] }) := by
+  simp only [step, hp, Gen.C05.dispatchChannel_room, Gen.C05.dispatchChannel_sends]
+  by_cases hr : s.chan.length < s.cap
+  · have : ((s.chan.length : Int) < (s.cap : Int)) := by omega
+    simp only [hr, this, if_true, decide_true]
+    cases s.closing <;> simp
+  · have : ¬ ((s.chan.length : Int) < (s.cap : Int)) := by omega
+    simp [hr, this]
+
+/-- the boundary: a channel with one free place takes the message, a full one does not -/
+theorem c05_gen_channel_room_boundary (c : Nat) :
+    Gen.C05.dispatchChannel_room (c, c + 1) (fun p => (p.1 : Int)) (fun p => (p.2 : Int)) = true ∧
+    Gen.C05.dispatchChannel_room (c, c) (fun p => (p.1 : Int)) (fun p => (p.2 : Int)) = false := by
+  simp [Gen.C05.dispatchChannel_room]
+  omega
+
+end Chan
+end C05
